@@ -23,6 +23,8 @@ import (
 	"strings"
 	"sync"
 
+	"github.com/oxia-db/oxia/proto"
+
 	m "verif/harness/dbmodel"
 )
 
@@ -94,7 +96,14 @@ func replayOne(beh []m.Step, mode string, scope map[string]bool) (o outcome) {
 			// a request of a known-finding class: the outcome is recorded, not judged; the state after
 			// it is not specified, so the behaviour ends here
 			if got.Err != "" {
-				o.findings = append(o.findings, finding{Req: want.Req.String(), Err: got.Err, Count: 1})
+				fd := finding{Req: want.Req.String(), Err: got.Err, Count: 1}
+				if mode == "leader" && strings.HasPrefix(got.Err, "ERROR") {
+					// the request is in the log: can the shard still be led after a restart?
+					if rerr := e.Restart(); rerr != nil {
+						fd.Err += " | restart: " + rerr.Error()
+					}
+				}
+				o.findings = append(o.findings, fd)
 			}
 			return o
 		}
@@ -110,6 +119,17 @@ func replayOne(beh []m.Step, mode string, scope map[string]bool) (o outcome) {
 			}
 		}
 		if d := m.Diff(want, &got, sc); d != "" {
+			// read the same state a second time: a read that does not repeat is reported as such
+			again := m.Step{A: got.A}
+			_ = m.Observe(e, &again, probeKeys)
+			again.Normalize()
+			if os.Getenv("DBCHECK_DEBUG") != "" {
+				all, lerr := e.List(&proto.ListRequest{})
+				d += fmt.Sprintf(" [DEBUG step %d %s req=%s; all keys: %q %v]", i, want.A, want.Req.String(), all, lerr)
+			}
+			if fmt.Sprint(again.Recs) != fmt.Sprint(got.Recs) || fmt.Sprint(again.Idx) != fmt.Sprint(got.Idx) {
+				d += fmt.Sprintf(" [UNSTABLE READ: a second read of the same state returned %d records, the first %d]", len(again.Recs), len(got.Recs))
+			}
 			o.mm = &mismatch{Mode: mode, Behaviour: beh[:i+1], Step: i, What: d, Got: &got}
 			return o
 		}
@@ -192,7 +212,9 @@ func cmdReplay(args []string) int {
 					// only a mismatch that reproduces is reported
 					o2 := replayOne(beh, *mode, scope)
 					if o2.mm == nil || o2.mm.Step != o.mm.Step {
-						o.harness = fmt.Errorf("mismatch did not reproduce: %s", o.mm.What)
+						last := o.mm.Behaviour[len(o.mm.Behaviour)-1]
+						o.harness = fmt.Errorf("a mismatch at step %d (%s %s) did not reproduce on re-execution - the real code is not deterministic on this behaviour, or the harness is not: %s",
+							o.mm.Step, last.A, last.Req.String(), o.mm.What)
 					}
 				}
 				mu.Lock()
@@ -322,6 +344,50 @@ func (g *gen) put() m.Put {
 	return p
 }
 
+// hostile: field combinations a well-behaved client library would not build (C13)
+func (g *gen) hostilePut() m.Put {
+	keys := []string{"", "a", "a/b", "s", "t/u", "__oxia/x", "__oxia/zz/y"}
+	deltas := [][]int{{}, {}, {0}, {0, 1}, {1}, {2}, {1, 1}, {1, 0, 3}, {3, 2, 1, 1}}
+	p := m.Put{Key: m.K(g.pick(keys)), Val: 1 + g.rng.Intn(900), Exp: m.NoExp, Sess: m.NoSess, Idx: []m.IdxE{}}
+	p.Deltas = append([]int{}, deltas[g.rng.Intn(len(deltas))]...)
+	p.Pkey = g.rng.Intn(3) > 0
+	if g.rng.Intn(3) == 0 {
+		p.Exp = g.exp(p.Key.S())
+	}
+	if g.rng.Intn(3) == 0 {
+		if len(g.sess) > 0 && g.rng.Intn(2) == 0 {
+			p.Sess = g.sess[g.rng.Intn(len(g.sess))]
+		} else {
+			p.Sess = 900 + g.rng.Intn(3)
+		}
+	}
+	for n := g.rng.Intn(3); n > 0; n-- {
+		p.Idx = append(p.Idx, m.IdxE{N: m.K(g.pick(idxNames)), K: m.K(g.pick(idxKeys))})
+	}
+	return p
+}
+
+func (g *gen) hostileRequest() m.Req {
+	r := m.Req{Puts: []m.Put{}, Dels: []m.Del{}, Rngs: []m.Rng{}}
+	bounds := []string{"", "a", "a/z", "z", "z/", "__oxia/", "__oxia/~", "__oxia/x", "B/", "s-", "s."}
+	n := 1 + g.rng.Intn(3)
+	for i := 0; i < n; i++ {
+		switch x := g.rng.Intn(10); {
+		case x < 6:
+			r.Puts = append(r.Puts, g.hostilePut())
+		case x < 8:
+			k := g.pick([]string{"", "a", "a/b", "__oxia/x", "nope"})
+			if g.rng.Intn(2) == 0 {
+				k = g.liveKey()
+			}
+			r.Dels = append(r.Dels, m.Del{Key: m.K(k), Exp: g.exp(k)})
+		default:
+			r.Rngs = append(r.Rngs, m.Rng{S: m.K(g.pick(bounds)), E: m.K(g.pick(bounds))})
+		}
+	}
+	return r
+}
+
 func (g *gen) liveKey() string {
 	if len(g.recs) > 0 && g.rng.Intn(4) > 0 {
 		ks := make([]string, 0, len(g.recs))
@@ -428,14 +494,16 @@ func cmdDrive(args []string) int {
 			switch x := rng.Intn(40); {
 			case x == 0 && k > 0:
 				st = m.Step{A: "Restart"}
-			case x < 4 && *profile != "seq":
+			case x < 4 && *profile != "seq" && (*profile != "hostile" || x < 2):
 				// create a session: the record "__oxia/session/<offset>"
 				id := e.NextOffset()
 				st.Req = m.Req{Puts: []m.Put{{Key: m.K(fmt.Sprintf("%s%016x", m.SessPrefix, id)), Val: -1, Exp: m.NoExp, Sess: m.NoSess}}}
+			case *profile == "hostile":
+				st.Req = g.hostileRequest()
 			default:
 				st.Req = g.request()
 			}
-			if e.HasIndexQueries() {
+			if e.HasIndexQueries() && *profile != "hostile" {
 				g.probes(&st)
 			}
 			problems := m.Exec(e, &st, g.keys)
